@@ -298,9 +298,13 @@ def judge(ctx, r, what, rep):
 def check_expand(ctx, defs):
     from adcgen import Intermediates, Expr
     rng = ctx.rng
+    t_end = time.time() + ctx.pick(600, 900)
     names = sorted(n for n in Intermediates().available if n not in ("t4_2",) and n not in defs.residuals)
     n = ctx.pick(40, 500)
     for it in range(n):
+        if time.time() > t_end:
+            ctx.count("time_budget_reached(expand)")
+            break
         sy = itmd_expr(ctx, names)
         if sy is S.Zero:
             continue
@@ -477,10 +481,14 @@ def check_factor(ctx, defs):
     from adcgen import Intermediates, Expr, factor_intermediates
     rng = ctx.rng
     n = ctx.pick(40, 300)
-    tlimit = ctx.pick(60, 400)
+    tlimit = ctx.pick(60, 120)
     quick_names = ["t2_1", "t1_2", "t2_2", "p0_2_oo", "p0_2_vv", "t2eri_3", "t2eri_5", "t2sq", "t2eri_1", "t2eri_6"]
     grid = list(grid_inputs(ctx, ["t2_1", "t2eri_3", "t2sq"] if ctx.quick() else FACTORABLE))
+    t_end = time.time() + ctx.pick(600, 1500)
     for it in range(n + len(grid)):
+        if time.time() > t_end:
+            ctx.count("time_budget_reached(factor)")
+            break
         if it < len(grid):
             name, idx, mode, full, sy = grid[it]
         else:
@@ -630,7 +638,11 @@ def check_reduce(ctx, defs):
     from adcgen import Expr, reduce_expr
     from props.c13 import scalar_step_x
     n = ctx.pick(25, 250)
+    t_end = time.time() + ctx.pick(600, 900)
     for it in range(n):
+        if time.time() > t_end:
+            ctx.count("time_budget_reached(reduce)")
+            break
         sy = sympy.sympify(reduce_inputs(ctx))
         if sy is S.Zero or sy.is_number:
             continue
